@@ -152,6 +152,22 @@ def gen_retry(rng, tier, timers_only=False):
             flags |= bit
     t0 = rng.choice([0, 1000, 10 ** 9, 1 << 40])
     acts = []
+    if not timers_only and rng.random() < 0.07:
+        # the server list flaps between disjoint single-server lists under the query, faster
+        # than the timeout, more often than servers*tries: every removal of the server the
+        # query waits on must count against its budget
+        tries = rng.choice([1, 2, 2, 3, 4, 5])
+        acts = []
+        cur = 1
+        for _ in range(tries + 6 + rng.choice([0, 1, 3, 10])):
+            cur = rng.choice([x for x in (1, 2, 3, 4) if x != cur])
+            acts.append("V%d" % cur)
+            r = rng.random()
+            if r < 0.1:
+                acts.append("e")
+            elif r < 0.2:
+                acts.append(rng.choice(["Rs", "Rz", "X", "Rn"]))
+        return "retry|1,%d,%d,%d,%d,%d,%d|%s" % (tries, timeout, maxt, jmode, flags & ~64, t0, ";".join(acts))
     style = "timers" if timers_only else rng.choice(["timeouts", "timeouts", "mixed", "mixed", "replies", "faults", "servers", "dups", "batches", "batches"])
     n = 0 if style == "timeouts" else rng.choice([1, 2, 4, 8, 16, 30])
     cur = S
